@@ -8,6 +8,7 @@ import c_iso
 import c_conc
 import c_meta
 import c_struct
+import c_schedapi
 import thms
 
 TRUSTED = [
@@ -121,6 +122,11 @@ def run_c16(tier, seed):
     return {"coverage": cov, "violations": viols, "summary": f"families={nscripts} max_objects={big.get('objects')} disagreements={disagree_total}"}
 
 def node_replay(path):
+    head = open(path).readline()
+    if "L-sched-api" in head: return c_schedapi.replay(path)
+    if "L-struct" in head: return c_struct.replay(path)
+    if not head.startswith("correspondence L-node") and not head.startswith("# implementation vs the glitch") and ("S `" in open(path).read() or "specification S" in head):
+        return c_api.replay(path)
     ops = [l.strip() for l in open(path) if l.strip() and not l.startswith("#") and not l.startswith("correspondence")]
     text = "\n".join(ops) + "\n"
     hl, ml, rc, herr = run_pair("node", text, harness_env={"NODE_TRUTH": "1"})
@@ -151,11 +157,14 @@ def run_c03(tier, seed):
                       "replay_text": "correspondence L-node (Model/Sched.lean vs src/impl_/sodium_ctx.rs update_node/end_of_transaction) no longer checks; theorem sched_glitch_free of Props/C03.lean no longer applies to the code\n"
                                      f"# first disagreement: impl `{h}` model `{m}`\n" + "\n".join(s) + "\n", "signature": None})
     c = cov["correspondence"]
+    sa_info, sa_viols = c_schedapi.check(tier, seed)
+    cov["correspondence_sched_api"] = sa_info
+    viols += sa_viols
     api = c_api.run_api_prop("C03", tier, seed)
     cov["correspondence_api"] = api["coverage"]["correspondence"]
     cov["api_input_distribution"] = api["coverage"]["input_distribution"]
     viols += api["violations"]
-    return {"coverage": cov, "violations": viols, "summary": f"L-node scripts={c['scripts']} txns={c['transactions']} disagreements={c['model_vs_impl_disagreements']} truth_failures={c['impl_vs_ground_truth_failures']} " + api["summary"]}
+    return {"coverage": cov, "violations": viols, "summary": f"L-node scripts={c['scripts']} txns={c['transactions']} disagreements={c['model_vs_impl_disagreements']} truth_failures={c['impl_vs_ground_truth_failures']} L-sched-api txns={sa_info['transactions_compared']} updates={sa_info['update_closures_compared']} disagreements={sa_info['disagreements']} " + api["summary"]}
 
 
 def make_api_run(pid, with_txn=False, extra=None):
@@ -217,7 +226,7 @@ API_TEXT = {
  "C09": ("order-independence: unique solution of S's equations and of the scheduler's fixed point", "metamorphic reorderings"),
 }
 
-HOOK_COMMITS = ["fdc44d7"]
+HOOK_COMMITS = ["fdc44d7", "54e378f"]
 NOT_CLAIMED = {}
 
 PROPS = {
@@ -225,7 +234,7 @@ PROPS = {
             "run": run_c08, "replay": gc_replay,
             "technique": "Lean 4 theorems on the collector model M_gc + exact-state differential correspondence with gc_node.rs (random and exhaustive histories)",
             "level_text": "Theorems about M_gc (a line-by-line executable model of gc_node.rs) for every object graph and history; the model is tied to the code by comparing the full hidden collector state after every operation of random (quick) and exhaustively enumerated (thorough) histories, and the implementation is separately checked against a reachability ground truth to find concrete failing histories.",
-            "level_note": "Trusted: Lean kernel (+propext, Classical.choice, Quot.sound), the hand-written model, the harness with synthetic objects (destructor releases its out-edges), hook accessors. Bounded only in the tie: <=6 objects/<=40 ops random, <=3 objects length 7 and <=2 objects length 9 exhaustive.",
+            "level_note": "Trusted: Lean kernel (+propext, Classical.choice, Quot.sound), the hand-written model, the harness with synthetic objects (destructor releases its out-edges), hook accessors. Bounded only in the tie: <=6 objects/<=40 ops random, <=3 objects length 7 and 8, <=2 objects length 8 exhaustive.",
             "design_ref": "DESIGN.md section 6, C08"},
     "C16": {"modules": ["SodiumVerif.Props.C16", "SodiumVerif.Props.C16b"], "audit_import": ["SodiumVerif.Props.C16", "SodiumVerif.Props.C16b"], "theorems": c_gc.C16_THEOREMS,
             "run": run_c16, "replay": gc_replay,
